@@ -7,6 +7,8 @@ import (
 	"encoding/json"
 	"flag"
 	"fmt"
+	"io"
+	"log/slog"
 	"math/rand"
 	"os"
 	"sort"
@@ -97,6 +99,8 @@ var engines = map[string]Engine{}
 func register(e Engine) { engines[e.Name] = e }
 
 func main() {
+	// the library logs every handshake step at Info level; keep the harness output clean
+	slog.SetDefault(slog.New(slog.NewTextHandler(io.Discard, nil)))
 	if len(os.Args) < 2 {
 		usage()
 	}
